@@ -4,7 +4,7 @@
    PARTIAL: "in a mesh with stable membership on a delivering network no healthy peer is ever timed
    out" combines interval_safe with message delivery; it is decided by the executed correspondence
    on heterogeneous meshes for the grid of timeout/keepalive values (py/props/c15.py). *)
-From VpnModel Require Import Base Interval IntervalProofs NodeInfo Table TableProofs Nonce Replay Core Conn PeerCrypto Node NodeProofs ScheduleProofs NextHopProofs TickPeersProofs FloodProofs AnnounceProofs.
+From VpnModel Require Import Base Interval IntervalProofs NodeInfo Table TableProofs Nonce Replay Core Conn PeerCrypto Node NodeProofs ScheduleProofs NextHopProofs TickPeersProofs FloodProofs AnnounceProofs RedialProofs.
 
 (* whenever a node schedules its next announcement the delay is at most one second or strictly shorter than every timeout its peers advertised *)
 Theorem C15_interval_safe : forall upd advertised, advertised <> [] ->
@@ -68,6 +68,13 @@ Theorem C15_housekeep_expires_first : forall salts now n,
        (n6, fx1 ++ fx3 ++ fx4 ++ fx5)).
 Proof. exact housekeep_starts_with_expire. Qed.
 
+(* ... and RE-DIALLED: the same housekeeping tick sends a fresh stage-1 handshake message (no payload) to the address of every peer it removes, whatever that peer advertised and whatever else the node holds - unless the address is one of the node's own or a handshake with it is already pending (the two cases in which connect_sock does nothing) *)
+Theorem C15_expired_redialled : forall salts now n addr pd,
+  aget (n_peers n) addr = Some pd -> (p_timeout pd < now)%Z ->
+  memN addr (n_own n) = false -> ahas (n_pending n) addr = false ->
+  exists e, In e (snd (housekeep salts now n)) /\ is_ping_to addr e.
+Proof. exact housekeep_redials_expired. Qed.
+
 (* reconnect back-off: the delay stays within 1..3600 s, tries within 0..10, the next attempt lies in the future and at most one hour ahead *)
 Theorem C15_backoff_bounds : forall now e, backoff_ok e ->
   backoff_ok (backoff_step now e) /\
@@ -82,6 +89,15 @@ Proof. exact backoff0_ok. Qed.
 Theorem C15_backoff_forever : forall times e, backoff_ok e -> backoff_ok (backoff_run e times).
 Proof. exact backoff_run_ok. Qed.
 
+(* non-vacuity *)
+Example C15_ex_redial_premises : exists pd, aget (n_peers ex_b) 1001 = Some pd /\ (p_timeout pd < 1000)%Z /\
+  memN 1001 (n_own ex_b) = false /\ ahas (n_pending ex_b) 1001 = false.
+Proof. exact ex_redial. Qed.
+
+Example C15_ex_announcement_due : (n_next_peers ex_b <= 5)%Z /\
+  map dst_of (snd (broadcast (hk3 salts 5 ex_b) MESSAGE_TYPE_NODE_INFO (ni_encode (create_node_info (hk3 salts 5 ex_b))))) = [Some 1001].
+Proof. exact ex_announcement. Qed.
+
 Print Assumptions C15_interval_safe.
 Print Assumptions C15_node_schedule_safe.
 Print Assumptions C15_reachable_announcement_reaches_every_peer.
@@ -89,6 +105,7 @@ Print Assumptions C15_interval_no_peers.
 Print Assumptions C15_keepalive_default.
 Print Assumptions C15_expired_removed.
 Print Assumptions C15_housekeep_expires_first.
+Print Assumptions C15_expired_redialled.
 Print Assumptions C15_backoff_bounds.
 Print Assumptions C15_backoff_init.
 Print Assumptions C15_backoff_forever.
